@@ -543,57 +543,143 @@ func execCase(k *kase, choose chooser, replayLen int) result {
 	for _, hh := range hs {
 		hh.Close()
 	}
-	return result{line: k.line(realized), obs: sb.String(), key: findingKey(k, thrs, trace)}
+	return result{line: k.line(realized), obs: sb.String(), key: findingKey(k, thrs, trace, realized)}
 }
 
-// findingKey tags the witnesses of the recorded findings (KNOWN_FINDINGS.txt): a failing cache-tier
-// write that Set swallowed, a failing cache-tier read that was reported as "absent".
-func findingKey(k *kase, thrs []*thr, trace []string) string {
-	if k.twoNode() {
-		// the key lock and the local cache are per node: cross-node races are recorded findings
-		for _, op := range k.ops {
-			if strings.HasPrefix(op, "app") || strings.HasPrefix(op, "rem") {
-				return "cross-node-list-update"
-			}
+// findingKey tags a case as a witness of ONE recorded finding (KNOWN_FINDINGS.txt) only when the run shows
+// exactly the recorded mechanism; everything else — also in the same area — stays a plain case, so that a
+// new violation there is reported.
+//
+//	cache-set-fault-swallowed  the only injected failure is the cache Set that ends a Set/Append/Remove which returned ok
+//	cache-read-fault-masked    the only injected failure is a cache Get/Exists of a read that then reported "absent"
+//	cross-node-list-update     no failure/eviction; append/remove calls of two nodes overlap in time
+//	cross-node-writeback       no failure/eviction; between a call's persistent-tier operation and its later
+//	                           shared-cache write, a call of the OTHER node that writes the persistent tier is in progress
+//	cross-node-local-cache     no failure/eviction; a call of one node wrote the persistent tier while the other
+//	                           node's local cache holds / is given a copy
+func findingKey(k *kase, thrs []*thr, trace []string, sch []entry) string {
+	faults, evicts := 0, 0
+	for _, e := range sch {
+		if strings.HasPrefix(e.tag, "E") {
+			evicts++
+		} else if e.tag != "" {
+			faults++
 		}
-		local, persisted := false, false
-		for _, e := range trace {
-			if f := strings.Split(e, "/"); len(f) == 4 {
-				local = local || f[1] == "c"
-				persisted = persisted || f[1] == "p"
-			}
-		}
-		if persisted && local {
-			return "cross-node-local-cache"
-		}
-		if persisted {
-			return "cross-node-writeback"
-		}
-		return "" // pure shared data: two nodes must behave like one (C14_two_node_shared)
 	}
-	lastOf := map[int]int{}
-	for i, e := range trace {
-		tid, _ := strconv.Atoi(e[:strings.IndexByte(e, '/')])
-		lastOf[tid] = i
+	type ev struct {
+		tid            int
+		tier, act, out string
 	}
-	for i, e := range trace {
+	var evs []ev
+	for _, e := range trace {
 		f := strings.Split(e, "/")
-		if len(f) != 4 || f[3] != "fail" || f[1] == "p" {
-			continue
+		if len(f) != 4 {
+			return ""
 		}
 		tid, _ := strconv.Atoi(f[0])
-		if tid >= len(k.ops) || tid >= len(thrs) {
+		evs = append(evs, ev{tid, f[1], f[2], f[3]})
+	}
+	nodeOf := func(tid int) int {
+		if tid < len(k.nodes) {
+			return k.nodes[tid]
+		}
+		return 0
+	}
+	opOf := func(tid int) string {
+		if tid < len(k.ops) {
+			return strings.Split(k.ops[tid], ":")[0]
+		}
+		return ""
+	}
+	pwrite := func(e ev) bool {
+		return e.tier == "p" && e.out == "ok" && (strings.HasPrefix(e.act, "set=") || e.act == "del")
+	}
+	if k.twoNode() {
+		if faults > 0 || evicts > 0 {
+			return ""
+		}
+		listOnly := true
+		for _, op := range k.ops {
+			if !strings.HasPrefix(op, "app") && !strings.HasPrefix(op, "rem") {
+				listOnly = false
+			}
+		}
+		if listOnly {
+			for a := 0; a < len(thrs) && a < len(k.ops); a++ {
+				for b := a + 1; b < len(thrs) && b < len(k.ops); b++ {
+					if nodeOf(a) != nodeOf(b) && thrs[a].first > 0 && thrs[b].first > 0 &&
+						thrs[a].first < thrs[b].last && thrs[b].first < thrs[a].last {
+						return "cross-node-list-update"
+					}
+				}
+			}
+			// not overlapping: only the local-cache mechanism below can explain a failure
+		}
+		// a foreign persistent write between a call's persistent operation and its later shared-cache write
+		for i, e := range evs {
+			if e.tier != "p" {
+				continue
+			}
+			for kx := i + 1; kx < len(evs); kx++ {
+				if evs[kx].tid == e.tid && evs[kx].tier == "s" && strings.HasPrefix(evs[kx].act, "set=") {
+					// a call of the other node that writes the persistent tier is in progress during (i, kx)
+					for b := range thrs {
+						if b == e.tid || nodeOf(b) == nodeOf(e.tid) {
+							continue
+						}
+						firstIdx, lastIdx, writes := -1, -1, false
+						for j, f := range evs {
+							if f.tid == b {
+								if firstIdx < 0 {
+									firstIdx = j
+								}
+								lastIdx = j
+								writes = writes || pwrite(f)
+							}
+						}
+						if writes && firstIdx < kx && lastIdx > i {
+							return "cross-node-writeback"
+						}
+					}
+				}
+			}
+		}
+		// a persistent write on one node while the other node's local cache has / gets a copy
+		for _, e := range evs {
+			if !pwrite(e) {
+				continue
+			}
+			other := 1 - nodeOf(e.tid)
+			if other == 0 && k.init[0] != "-" {
+				return "cross-node-local-cache"
+			}
+			for _, f := range evs {
+				if f.tier == "c" && nodeOf(f.tid) == other && (strings.HasPrefix(f.act, "set=") || strings.HasPrefix(f.out, "hit") || f.out == "b1") {
+					return "cross-node-local-cache"
+				}
+			}
+		}
+		return ""
+	}
+	if faults != 1 || evicts > 0 {
+		return ""
+	}
+	lastOf := map[int]int{}
+	for i, e := range evs {
+		lastOf[e.tid] = i
+	}
+	for i, e := range evs {
+		if e.out != "fail" || e.tier == "p" || e.tid >= len(k.ops) || e.tid >= len(thrs) {
 			continue
 		}
-		op := strings.Split(k.ops[tid], ":")[0]
-		res := thrs[tid].res
-		if strings.HasPrefix(f[2], "set=") && lastOf[tid] == i && res == "ok" && (op == "set" || op == "app" || op == "rem") {
+		op := opOf(e.tid)
+		res := thrs[e.tid].res
+		if strings.HasPrefix(e.act, "set=") && lastOf[e.tid] == i && res == "ok" && (op == "set" || op == "app" || op == "rem") {
 			return "cache-set-fault-swallowed"
 		}
-		if (f[2] == "get" || f[2] == "ex") && (res == "nf" || res == "b=0" || res == "ok") && lastOf[tid] >= i {
-			if op == "get" || op == "ex" || op == "getl" || op == "app" || op == "rem" {
-				return "cache-read-fault-masked"
-			}
+		if (e.act == "get" || e.act == "ex") && ((op == "get" && res == "nf") || (op == "getl" && res == "nf") ||
+			(op == "ex" && res == "b=0") || (op == "rem" && res == "nf") || (op == "app" && res == "ok")) {
+			return "cache-read-fault-masked"
 		}
 	}
 	return ""
